@@ -1,6 +1,7 @@
 package harness
 
 import (
+	"strconv"
 	"fmt"
 	"time"
 
@@ -212,15 +213,22 @@ func (w *World) buildTx(c *Chain, a map[string]any) (*TxSpec, error) {
 			w.N.addKey(newConsKey(kn, "pkey", idx))
 		}
 		key := w.N.Keys[kn]
-		if _, exists := w.N.ValByOp[tx.Signer.ValAddr().String()]; exists {
+		op := tx.Signer.ValAddr().String()
+		again := false // a further attempt in the same block (the earlier one may fail): decided after the block
+		for _, pv := range w.pendingVals {
+			again = again || pv.op == op
+		}
+		if _, exists := w.N.ValByOp[op]; exists && !again {
 			return nil, fmt.Errorf("validator %s exists", v)
 		}
-		w.pendingVals = append(w.pendingVals, pendingVal{name: v, op: tx.Signer.ValAddr().String(), key: kn})
-		w.N.ValByOp[tx.Signer.ValAddr().String()] = v
+		w.pendingVals = append(w.pendingVals, pendingVal{name: v, op: op, key: kn})
+		w.N.ValByOp[op] = v
 		if ck := fmt.Sprintf("%x", []byte(key.Addr())); w.N.ValByCons[ck] == "" {
 			w.N.ValByCons[ck] = v
 		}
-		w.N.ValNames = append(w.N.ValNames, v)
+		if !again {
+			w.N.ValNames = append(w.N.ValNames, v)
+		}
 		w.ValKey[v] = kn
 		pkAny, err := codectypes.NewAnyWithValue(key.SDKPub())
 		if err != nil {
@@ -282,6 +290,10 @@ func (w *World) buildTx(c *Chain, a map[string]any) (*TxSpec, error) {
 		params := c.PApp.ProviderKeeper.GetParams(c.GetContext())
 		if has(a, "M") {
 			params.MaxProviderConsensusValidators = geti(a, "M")
+		}
+		if has(a, "Mstr") { // values beyond 32 bits travel as strings (the trace is read by TLC)
+			n, _ := strconv.ParseInt(gets(a, "Mstr"), 10, 64)
+			params.MaxProviderConsensusValidators = n
 		}
 		if has(a, "bpe") {
 			params.BlocksPerEpoch = geti(a, "bpe")
